@@ -162,6 +162,69 @@ def c02(res, tier, seed, deep):
     return "positions as C01; per position: all successors as FEN, coordinate triples of (sampled) legal moves, promotion with and without letter, random and near-miss illegal coordinates, raw make-move; non-trivial = request resolved to a move"
 
 
+def expand_succ(fens, rounds=1):
+    """successor FENs (model) of the given positions"""
+    outs, rc, err = wee.run_driver(["succ " + f for f in fens])
+    res = []
+    for m, s in outs:
+        res += [t.replace("_", " ") for t in m.split(" ")[1:]]
+    return res
+
+
+def c08(res, tier, seed, deep):
+    n = 6000 if tier == "thorough" else (1500 if deep else 500)
+    rnd = random.Random(seed)
+    base = positions(seed + 11, n)
+    fens = list(base)
+    # transpositions: all positions two and three plies below a sample (a-then-b vs b-then-a, and
+    # pieces going out and back)
+    lvl1 = expand_succ(rnd.sample(base, min(len(base), 25 if tier == "quick" else 120)))
+    lvl2 = expand_succ(rnd.sample(lvl1, min(len(lvl1), 60 if tier == "quick" else 400)))
+    lvl3 = expand_succ(rnd.sample(lvl2, min(len(lvl2), 80 if tier == "quick" else 500)))
+    fens += lvl1 + lvl2 + lvl3
+    # one-component variants: counters (must not matter), rights subsets, ep target dropped, side swapped
+    var = []
+    for f in rnd.sample(fens, min(len(fens), n)):
+        p = f.split(" ")
+        var.append(" ".join(p[:4] + [str(rnd.randrange(100)), str(rnd.randrange(1, 300))]))
+        var += rights_variants(f, rnd)
+        if p[3] != "-":
+            var.append(" ".join(p[:3] + ["-"] + p[4:]))
+        var.append(" ".join([p[0], "b" if p[1] == "w" else "w"] + p[2:3] + ["-"] + p[4:]))
+    fens += var
+    seeds = [0, seed, rnd.getrandbits(64)]
+    viol_before = len(res.violations)
+    for sd in seeds:
+        reqs = [f"hash {sd} {f}" for f in fens]
+        impl, rc, err = wee.run_lines(wee.harness_path(), reqs)
+        drv, rc2, err2 = wee.run_driver(reqs)
+        if len(impl) != len(reqs):
+            res.broken.append("harness died on hash requests")
+            impl += ["<no-output>"] * (len(reqs) - len(impl))
+        by_key, by_hash = {}, {}
+        for req, i, (m, s) in zip(reqs, impl, drv):
+            if s != "-":
+                by_key.setdefault(s, {}).setdefault(i, req)
+                by_hash.setdefault(i, {}).setdefault(s, req)
+        for req, i, (m, s) in zip(reqs, impl, drv):
+            ok = True
+            note = "consistent"
+            if s != "-":
+                if len(by_key[s]) > 1:
+                    ok = False
+                    other = [r for h, r in by_key[s].items() if h != i][0]
+                    note = "same key, different hash than: " + other
+                elif len(by_hash[i]) > 1:
+                    ok = False
+                    other = [r for k, r in by_hash[i].items() if k != s][0]
+                    note = "different key, same hash as: " + other
+            res.add(req, i, m, "consistent" if s != "-" else "-", (lambda x, note=note: note),
+                    nontrivial=(s != "-" and len(by_key.get(s, {})) >= 1))
+        res.tags["keys_with_several_positions"] = sum(1 for k, v in by_key.items() if sum(1 for _ in v) >= 1)
+    res.tags["positions_per_seed"] = len(fens)
+    return "positions from play plus all positions 1-3 plies below a sample (transposing move orders), and one-component variants (counters, every subset of the castling rights, en-passant target dropped, side swapped; only legal variants count); for 3 hasher seeds every pair is checked: equal rule-relevant key <=> equal hash; and the hash is compared with the Lean model drawing its keys from the ChaCha8 model"
+
+
 def ray_mask(sq_, dirs):
     m = 0
     f0, r0 = sq_ % 8, sq_ // 8
@@ -540,6 +603,7 @@ def cbor_ok(tok, raw):
 CHECKS = {
     "C01": (c01, ["movegen", "moves", "state", "board", "attacks", "common"]),
     "C02": (c02, ["state", "moves", "board", "movegen"]),
+    "C08": (c08, ["hasher", "state", "board"]),
     "C09": (c09, ["attacks", "common", "board"]),
     "C10": (c10, ["board", "state", "attacks"]),
     "C11": (c11, ["notation", "board", "state"]),
